@@ -6,7 +6,7 @@ from props import common
 CASE_WALL_S = 12
 
 ID = "C18"
-TIERS = {"quick": dict(examples=2000), "thorough": dict(examples=60000)}
+TIERS = {"quick": dict(examples=3200), "thorough": dict(examples=60000)}
 RULE = ("Honest pair under generated schedules with `message` duplication/reordering (off for the "
         "versions-before-messages clause), 0-3 connection losses, both API styles; in Deferred mode every "
         "get_*() is requested at tape-chosen moments (early / interleaved / late) and again after closed; "
@@ -28,8 +28,8 @@ def cases(draw, tier="quick"):
     P["codemode"] = draw(st.sampled_from([["set", "set"], ["alloc", "fromA"], ["set", "input"]]))
     payload = st.one_of(st.binary(max_size=20), st.just(b"same"))
     P["sends"] = [draw(st.lists(payload, max_size=5)), draw(st.lists(payload, max_size=5))]
-    P["drops"] = draw(st.sampled_from([0, 0, 1, 2, 4]))
-    P["w_drop"] = draw(st.sampled_from([1, 3]))
+    P["drops"] = draw(st.sampled_from([0, 1, 2, 4, 6]))
+    P["w_drop"] = draw(st.sampled_from([1, 3, 6]))
     P["extra_msg_gets"] = draw(st.sampled_from([0, 0, 1, 2, 3]))
     P["dup"] = draw(st.booleans())
     P["reorder"] = draw(st.booleans())
@@ -45,6 +45,9 @@ def cases(draw, tier="quick"):
             P["hs_slow"][P["closes"][0][0]] = "only"
     P["w_due"] = draw(st.sampled_from([None, None, 1, 2]))      # eventual-send turns may lag behind the network
     P["gets_lag"] = draw(st.booleans())      # a reader that calls get_message() only after messages have arrived
+    if draw(st.integers(0, 2)) == 0:
+        slow = draw(st.integers(0, 1))
+        P["w_c2s"] = [1 if slow == 0 else 10, 1 if slow == 1 else 10]      # commands of one client pile up in flight
     n = draw(st.integers(0, 260))
     P["tape"] = draw(st.binary(min_size=n, max_size=n))
     return P
